@@ -1150,6 +1150,64 @@ func (s *scen) stepDrain(st *Step) {
 	if max == 0 {
 		max = 1 << 20
 	}
+	if st.Free {
+		// free-running consumer: receives while the reader is still working through its batch
+		pause := time.Duration(st.PauseUs) * time.Microsecond
+		for len(vals) < max && !(w.evClosed && w.errClosed) {
+			var evc <-chan fsnotify.Event
+			var erc <-chan error
+			if !w.evClosed {
+				evc = w.W.Events
+			}
+			if !w.errClosed {
+				erc = w.W.Errors
+			}
+			select {
+			case e, ok := <-evc:
+				if !ok {
+					w.evClosed = true
+					v := noneVal("closed")
+					v["ch"] = "ev"
+					vals = append(vals, v)
+				} else {
+					v := s.evVal(e)
+					v["ch"] = "ev"
+					vals = append(vals, v)
+				}
+			case err, ok := <-erc:
+				if !ok {
+					w.errClosed = true
+					v := noneVal("closed")
+					v["ch"] = "err"
+					vals = append(vals, v)
+				} else {
+					v := errVal(err)
+					v["ch"] = "err"
+					vals = append(vals, v)
+				}
+			case <-time.After(300 * time.Microsecond):
+				if !s.quiesce() {
+					end = "unquiet"
+					goto done
+				}
+				if len(w.W.Events) == 0 && !s.anySending() {
+					goto done
+				}
+			}
+			if pause > 0 {
+				time.Sleep(pause)
+			}
+		}
+	done:
+		if w.evClosed && w.errClosed {
+			end = "closed"
+		}
+		if len(vals) >= max {
+			end = "max"
+		}
+		s.emit(J{"k": "drain", "w": st.W, "vals": vals, "end": end, "free": true})
+		return
+	}
 	for len(vals) < max {
 		if !s.quiesce() {
 			end = "unquiet"
@@ -1191,7 +1249,17 @@ func (s *scen) stepDrain(st *Step) {
 	if len(vals) >= max {
 		end = "max"
 	}
-	s.emit(J{"k": "drain", "w": st.W, "vals": vals, "end": end})
+	s.emit(J{"k": "drain", "w": st.W, "vals": vals, "end": end, "free": false})
+}
+
+// anySending reports whether a library goroutine is parked in a channel operation (something is waiting to be received).
+func (s *scen) anySending() bool {
+	for _, g := range goroutines() {
+		if g.lib && !g.drv && (g.state == "select" || g.state == "chan send") {
+			return true
+		}
+	}
+	return false
 }
 
 func (s *scen) stepObs(st *Step) {
